@@ -138,6 +138,9 @@ func (ex *Exec) ApplySchemas() {
 				if fl == "needs-direct-backend" && !ex.hasDirectBackendOp(fn) {
 					skip = true
 				}
+				if fl == "needs-backend" && !ex.reachBackend[key] {
+					skip = true
+				}
 				if fl == "needs-lasterr" {
 					rs := fn.Signature.Results()
 					if rs.Len() == 0 || !isErrorType(rs.At(rs.Len()-1).Type()) {
@@ -166,6 +169,16 @@ func (ex *Exec) ApplySchemas() {
 				ex.lib.Contracts[key] = c
 			}
 			for _, cl := range sc.Clauses {
+				exempt := false
+				for _, own := range c.Clauses {
+					if own.Kind == "exempt" && tagActive(own.Tags, ex.prop) && own.Names[0] == cl.Label && cl.Label != "" {
+						exempt = true
+						ex.exemptions = append(ex.exemptions, fmt.Sprintf("%s is exempt from schema clause '%s': %s", shortKey(key), cl.Label, own.Text))
+					}
+				}
+				if exempt {
+					continue
+				}
 				cp := *cl
 				cp.Schema = true
 				if len(cp.Tags) == 0 {
